@@ -218,5 +218,5 @@ class RefKFAC:
                 L.snap = (L.A.clone(), L.G.clone(), lam)
 
 
-def tolerance(kappa, n, eps, c=64.0):
+def tolerance(kappa, n, eps, c=16.0):
     return c * math.sqrt(n) * eps * kappa
